@@ -11,7 +11,7 @@ package local_test
 // The child (selected by VERIF_C36_CHILD) runs a fixed history on a real
 // directory with the real local backend:
 //
-//	Save(config v1) List(pack) Save(A v1, 4 writes) Save(B) List(snapshot)
+//	Save(config v1) List(pack) Save(A v1, 3 writes) Save(B) List(snapshot)
 //	Save(A v2, overwrite, shorter) Remove(B) List(snapshot)
 //	Save(C) into a missing data/c3 sub-directory, Save(config v2, atomic replace) List(pack)
 //
@@ -130,7 +130,7 @@ func verifC36Handles() []*verifC36Handle {
 	idC := "c3" + strings.Repeat("3d", 31)
 	return []*verifC36Handle{
 		{Label: "CFG", H: backend.Handle{Type: backend.ConfigFile}, Vers: [][]byte{verifC36Content("CFG", 1, 300), verifC36Content("CFG", 2, 517)}},
-		{Label: "A", H: backend.Handle{Type: backend.PackFile, Name: idA}, Vers: [][]byte{verifC36Content("A", 1, 100*1024+123), verifC36Content("A", 2, 40*1024)}},
+		{Label: "A", H: backend.Handle{Type: backend.PackFile, Name: idA}, Vers: [][]byte{verifC36Content("A", 1, 64*1024+123), verifC36Content("A", 2, 40*1024)}},
 		{Label: "B", H: backend.Handle{Type: backend.SnapshotFile, Name: idB}, Vers: [][]byte{verifC36Content("B", 1, 3000)}},
 		{Label: "C", H: backend.Handle{Type: backend.PackFile, Name: idC}, Vers: [][]byte{verifC36Content("C", 1, 70*1024+1)}},
 	}
@@ -1429,7 +1429,7 @@ func TestVerif_C36(t *testing.T) {
 	r := vh.Start(t, "C36")
 	defer r.Finish()
 	chunk := vh.Pick(r, int64(1<<30), int64(8192))
-	full := vh.Pick(r, 10, 14)
+	full := vh.Pick(r, 10, 16)
 	nd := vh.Pick(r, 2, 4)
 	nk := vh.Pick(r, 1, 3)
 	r.Rule(fmt.Sprintf("one strace'd run of the fixed history (6 Saves incl. overwrite, atomic config replace and a Save into a missing sub-directory, 1 Remove, 4 Lists) on the real local backend; crash point = between any two logical updates of the trace; ordered model: every prefix j with lastFsync(i) <= j <= i; weak model: every subset of the updates not covered by an fsync of their file/directory is dropped (all 2^p subsets if p <= %d pending, else all that drop <= %d or keep <= %d; write extents of at most %d bytes); each distinct state per crash point is materialised and checked with the real local.Open/List/Load; evaluations = crash states materialised and checked; non-trivial = distinct crash states (by directory content) that differ from both the initial and the final directory", full, nd, nk, chunk))
